@@ -246,6 +246,50 @@ def rr6_boundary_cases(tier):
     return cases
 
 
+def huge_shift_cases(tier):
+    """deterministic block 4 (run LAST): cost proportional to the VALUE instead of the SIZE of an operand.  Residues many moduli below
+    zero and above m: f +- 2^e * m for e = 64, 90, 200 (a linear-in-|f|/m loop does not return: per-case CPU watchdog), through EVERY
+    integer entry point and every combination of its flags; residues: a fraction inside the envelope (completeness is judged on
+    these representatives too) and one whose first candidate is not coprime; plus huge moduli (2^200, 2^200 + 235 prime-ish odd,
+    3^130) with k = 1, 2, m - 1, m and residues 1, m - 1, m/2, 2^100 (a linear-in-m or linear-in-k loop)."""
+    cases = []
+    vs = [v for v in sorted(VARIANTS) if not v.endswith(".init")]
+    for mi, m in enumerate([1000000007, 9973 * 10007 * 10009, 250, 1 << 64]):
+        s = isqrt(m); e4 = max(1, s // 4)
+        a, b = (1234, 4321) if e4 >= 4321 else ((-7, 12) if e4 >= 12 else (1, 1))
+        while math.gcd(b, m) != 1 or math.gcd(a, b) != 1: b += 1
+        f_env = a * pow(b, -1, m) % m
+        f_bad = next((f for f in range(1, 4000) if branch_class(f, m, s) in ("second-ok", "second-rejected", "num0-fail")), None)
+        for (f0, frac) in ((f_env, (a, b) if 4 * abs(a) <= s and 4 * b <= s else None), (f_bad, None)):
+            if f0 is None: continue
+            for ei, e in enumerate((64, 90, 200)):
+                for sign in (-1, 1):
+                    x = f0 + sign * (m << e)
+                    for vi, v in enumerate(vs):
+                        op, nargs, mp, _ = VARIANTS[v]
+                        if ".al" in v and tier == "quick" and (vi + mi + ei) % 4 != 0: continue
+                        if tier == "quick" and mi >= 2 and (vi + ei) % 2 != 0: continue
+                        if op == "rr6":
+                            ia = [x, m, max(1, s), max(1, s)]
+                            cases.append((v, op, ia, ia, None, "huge-shift", "grid"))
+                            continue
+                        full = [x, m] if op in ("rr4", "qf") else [x, m, max(1, s)]
+                        nflags = nargs - len(full)
+                        for bits in range(1 << nflags):
+                            ia = full + [(bits >> j) & 1 for j in range(nflags)]
+                            cases.append((v, op, ia, mp(list(ia)), frac, "huge-shift", "grid"))
+    for m in (1 << 200, (1 << 200) + 235, 3 ** 130):
+        for k in (1, 2, m - 1, m):
+            for f in (1, m - 1, m // 2, 1 << 100, -(1 << 100)):
+                for v in vs:
+                    op, nargs, mp, _ = VARIANTS[v]
+                    if op in ("rr4", "rr6", "qf") or ".al" in v or ".dflt" in v or ".fr1" in v or ".zfr1" in v or ".sdflt" in v or ".zdflt" in v: continue
+                    nflags = nargs - 3
+                    ia = [f, m, k] + [1] * nflags
+                    cases.append((v, op, ia, mp(list(ia)), None, "huge-modulus", "grid"))
+    return cases
+
+
 def init_flag_cases():
     """deterministic block 0 (must be the first lines the harness sees): Rational(f,m,k,recurs) and both QField<Rational>::ratrecon
     forms before anything has called SetReduce / SetNoReduce, on inputs whose first candidate is not coprime"""
@@ -988,13 +1032,16 @@ def main(tier, replay=None):
         else:
             P0, frac0 = ptrim(src), None
         reps = [("reduced", P0), ("deg=degM", padd(P0, pmul(M, [3 % p or 1], p), p)), ("deg>degM", padd(P0, pmul(M, [7 % p, 0, 1], p), p)),
-                ("unnormalised", P0 + [0, 0])]
+                ("unnormalised", P0 + [0, 0]),
+                ("deg=10degM", padd(P0, pmul(M, [1] + [0] * (9 * pdeg(M) - 1) + [1], p), p))]
         for rname, P in reps:
             for v in POLY_FORMS:
                 for fr in (0, 1):
                     args = [p, dk, fr, len(P)] + P + [len(M)] + M
                     pcases.append((v, poly_model_op(v), args, args, frac0, "grid-" + rname, "p=%d" % p, (p, dk, fr, P, M)))
     allc = [(v, op, ia, ma, frac, fc, mc, None) for (v, op, ia, ma, frac, fc, mc) in cases] + pcases
+    # last, so that everything else has been judged if one of them does not return
+    allc += [(v, op, ia, ma, frac, fc, mc, None) for (v, op, ia, ma, frac, fc, mc) in huge_shift_cases(tier)]
     if replay:
         allc = cases_from_replay(replay)
         chk.notes.append("replay of %d cases from %s" % (len(allc), replay))
